@@ -56,7 +56,7 @@ Lemma coerce_typed t x y : coerce t x = Some y -> has_type t y = true.
 Proof.
   destruct t; cbn; intros H.
   - destruct x; try discriminate; try (inversion H; reflexivity). destruct (py_int s); inversion H; reflexivity.
-  - inversion H; reflexivity.
+  - destruct (to_bool x); inversion H; reflexivity.
   - inversion H; reflexivity.
 Qed.
 Lemma coerce_idem t v : has_type t v = true -> coerce t v = Some v.
